@@ -402,3 +402,46 @@ def spec_c05(tier, seed):
                    'rsocket.frame.FrameFragmentMixin.get_next_fragment', 'rsocket.frame_fragment_cache.FrameFragmentCache.append'],
         stubs=['S1', 'S2', 'S3', 'S4', 'S7 SimTransport with blocking send', 'VLoop'],
     )
+
+
+def spec_c06(tier, seed):
+    q = tier == 'quick'
+    ms = (0, 1, 2, 3) if q else (0, 1, 2, 3, 4, 5, 6)
+    srcs = ('gen', 'agen', 'rx4', 'rx4bp', 'rx3', 'rx3bp')
+    rparts = []
+    for src in srcs:
+        for role in ('stream', 'chan'):
+            for m in ms:
+                for col in ((False, True) if src in ('gen', 'agen') else (False,)):
+                    if q and role == 'chan' and m in (0, 2):
+                        continue
+                    rparts.append({'src': src, 'role': role, 'm': m, 'col': col})
+    cparts = [{'src': src, 'm': m, 'col': False} for src in srcs for m in ((1, 3) if q else ms)]
+    return dict(
+        conds=[
+            Cond('c06_credit', 'c_responder_credit', parts=rparts, timeout=400),
+            Cond('c06_credit', 'c_channel_requester_credit', parts=cparts, timeout=400),
+            Cond('c06_credit', 'c_forwarding', timeout=300),
+        ],
+        explanation='real responder endpoints (request-stream and request-channel) and a real channel requester over each of '
+                    'the library stream sources (generator, async generator, reactivex / Rx plain observable, reactivex / Rx '
+                    'back-pressure factory) holding M elements; initial request-n and two REQUEST_N values are 31-bit solver '
+                    'variables delivered early / late / back-to-back; at every quiescent point the number of PAYLOAD(next) '
+                    'frames on the wire must EQUAL min(M, credit granted so far), in order, completion only after the last '
+                    'element; a back-pressure factory must be asked for exactly the credited amounts; credit granted by the '
+                    'application (initial_request_n, Subscription.request) appears on the wire with exactly that value',
+        bounds=['M in %s elements; 3 credit values each in [1, 2^31-1] (symbolic)' % (list(ms),),
+                'REQUEST_N delivery: same read as the request / after quiescence / two back to back',
+                '6 stream sources x {stream responder, channel responder, channel requester}; complete-on-last or separate completion for generator sources'],
+        outside=['more than 3 credit frames, more than %d elements, publishers written by applications' % max(ms)],
+        functions=['rsocket.streams.stream_from_generator.StreamFromGenerator.request', 'rsocket.streams.stream_from_generator.StreamFromGenerator.queue_next_n',
+                   'rsocket.streams.stream_from_generator.StreamFromGenerator._generate_next_n', 'rsocket.streams.stream_from_generator.StreamFromGenerator.feed_subscriber',
+                   'rsocket.streams.stream_from_async_generator.StreamFromAsyncGenerator._generate_next_n',
+                   'rsocket.reactivex.back_pressure_publisher.InternalBackPressurePublisher.request', 'rsocket.reactivex.back_pressure_publisher.from_async_event_iterator',
+                   'rsocket.reactivex.back_pressure_publisher.observable_from_async_generator', 'rsocket.rx_support.back_pressure_publisher.from_async_event_iterator',
+                   'rsocket.rx_support.back_pressure_publisher.observable_from_async_generator',
+                   'rsocket.handlers.request_stream_responder.RequestStreamResponder.frame_received', 'rsocket.handlers.request_cahnnel_common.RequestChannelCommon.frame_received',
+                   'rsocket.handlers.request_cahnnel_responder.RequestChannelResponder.frame_received', 'rsocket.streams.stream_handler.StreamHandler.send_request_n',
+                   'rsocket.streams.stream_handler.StreamHandler.initial_request_n', 'rsocket.async_helpers.async_range'],
+        stubs=['S1', 'S2', 'S3', 'S6', 'S7 SimTransport', 'S8', 'reactivex / Rx libraries executed under the tracer'],
+    )
